@@ -1,16 +1,27 @@
 (* Properties_C20.v — C20: string, stream and file inputs of the same bytes give the same result.
-   PARTIAL.  In the model the three entry points run the same function on the same bytes (the stream and
-   file variants differ from the string variant only in the file name they record), which is stated below;
-   what can differ in the code is the refill path of the flex skeleton (YY_INPUT, yy_get_next_buffer,
-   yy_get_previous_state, buffer growth).  Its logic — carry the DFA state, the position and the best
-   candidate across refills and decide a match only when the automaton jams or the input ends — is
-   modelled in Chunked.v and proved equivalent to matching on the whole input, for every way of cutting the
-   input into chunks.  The pointer arithmetic of the refill (memmove, realloc) is not modelled; it is
-   exercised on every run by sliding every token kind across the 8 KiB / 16 KiB block boundaries of real
-   streams and files. *)
+   In the model the three entry points run the same function on the same bytes (the stream and file variants differ from
+   the string variant only in the file name they record), which is stated below; what can differ in the code is the refill
+   path of the flex skeleton (YY_INPUT, yy_get_next_buffer, yy_get_previous_state, buffer growth).
+   (a) Chunked.v: the abstract logic - carry the DFA state, the position and the best candidate across refills and decide a
+       match only when the automaton jams or the input ends - equals matching on the whole input, for every cutting.
+   (b) FlexBuf.v / FlexBufFacts.v: a faithful model of the skeleton's buffer machinery as compiled in lib/scanner.c - the
+       buffer of yy_buf_size bytes plus two sentinels, yy_n_chars, the buffer status (NEW / NORMAL / EOF_PENDING), the move
+       of the partial lexeme to the front, num_to_read = size - number_to_move - 1, the doubling loop while that is <= 0, the
+       cap at YY_READ_BUF_SIZE, a stream that may deliver ANY count between 1 and the requested size (0 only at the end),
+       EOB_ACT_END_OF_FILE / LAST_MATCH / CONTINUE_SCAN, yy_get_previous_state, NUL bytes inside the data, yy_scan_bytes for
+       strings - with: every byte written lies inside the allocation (C20_refill_in_bounds), and for every table set, start
+       condition, byte string of any length (lexemes longer than the buffer included) and every way the stream cuts its
+       data, one call of the buffered matcher returns exactly flex_match on the remaining input (C20_match), hence the token
+       sequence of a stream, of another stream over the same bytes and of the string are the same (C20_inputs_agree, with
+       the sizes of gen/Consts.v).  Corners the proof exposed: YY_READ_BUF_SIZE >= 1 and a refilled buffer of size >= 1.
+   Not modelled: interactive buffers, the ferror / EINTR path, the int-overflow branch of the growth (2^30 bytes), buffer
+   switching for includes (Lexer.v gives every file a buffer of its own).  The C code itself is exercised on every run by
+   sliding every token kind across the 8 KiB / 16 KiB block boundaries of real streams and files, with adversarial
+   chunkings (readck). *)
 From Coq Require Import List ZArith Bool.
 Import ListNotations.
-From LC Require Import Base Tree FlexEngine Chunked Lexer Parser Reader ScannerCert.
+From LC Require Import Base Tree FlexEngine Chunked FlexBuf FlexBufFacts Lexer Parser Reader ScannerCert.
+From LC.gen Require Import Consts.
 Local Open Scope Z_scope.
 
 (* however the input is cut into chunks (however the stream delivers its data), the matcher selects what it
@@ -42,3 +53,56 @@ Example C20_example :
   match_chunked the_tables 0 false [[116; 114]; [117]; []; [101; 120; 59]] = Some (36, 5%nat) /\
   flex_match the_tables 0 false [116; 114; 117; 101; 120; 59] = Some (36, 5%nat).
 Proof. vm_compute. split; reflexivity. Qed.
+
+
+(* ------------------------------------------------------------------------------------------------------- *)
+(* the skeleton's buffer machinery (FlexBuf.v, FlexBufFacts.v)                                               *)
+(* ------------------------------------------------------------------------------------------------------- *)
+
+(* a refill writes only inside the allocation: the growth loop ends, the moved prefix, the bytes read and both sentinels
+   fit in yy_buf_size + 2 *)
+Theorem C20_refill_in_bounds : forall rbs, (1 <= rbs)%nat -> forall st n strm, Inv st strm -> fb_fill st = true ->
+  fb_status (normalise st) <> BufEofPending -> (fb_pos st + n = length (fb_data st))%nat ->
+  exists size, grow (S (S n)) (fb_size st) n = Some size /\ (fb_size st <= size)%nat /\
+    let num_to_read := Nat.min (size - n - 1) rbs in
+    (1 <= num_to_read)%nat /\ (n + num_to_read + 2 <= size + 2)%nat /\
+    forall got s', sread num_to_read strm = (got, s') ->
+      (length got <= num_to_read)%nat /\ (size <? length got + n)%nat = false /\
+      match get_next rbs (normalise st) n strm with
+      | EobEOF st' _ | EobContinue st' _ | EobLast st' _ => fb_size st' = size /\ (length (fb_data st') + 2 <= size + 2)%nat
+      | EobFatal => False
+      end.
+Proof. exact refill_in_bounds. Qed.
+Print Assumptions C20_refill_in_bounds.
+
+(* one call of the buffered matcher, over any tables, with any number of refills and growths = flex_match on what remains *)
+Theorem C20_match : forall T rbs, (1 <= rbs)%nat -> forall sc bol st strm, Inv st strm ->
+  exists st' strm', Inv st' strm' /\
+    match rem st strm with
+    | [] => fb_match T rbs sc bol st strm = (FbEOF, st', strm') /\ rem st' strm' = []
+    | _ =>
+        match flex_match T sc bol (rem st strm) with
+        | Some (r, len) =>
+            fb_match T rbs sc bol st strm = (FbAct (Some (r, len)), st', strm') /\
+            rem st' strm' = skipn len (rem st strm) /\ fb_yytext st' len = firstn len (rem st strm)
+        | None => fb_match T rbs sc bol st strm = (FbAct None, st', strm') /\ rem st' strm' = rem st strm
+        end
+    end.
+Proof. exact fb_match_correct. Qed.
+Print Assumptions C20_match.
+
+(* with the compiled tables and the buffer sizes of the compiled scanner: two streams over the same bytes, however they
+   deliver them, and the string, give the same sequence of (rule, lexeme) - the one of matching on the whole text *)
+Theorem C20_inputs_agree : forall fuel trans sc bol text chunks1 chunks2 strm,
+  fb_lex ScannerCert.the_tables RBUF fuel trans sc bol (fb_of_stream BUF) (text, chunks1) =
+  fb_lex ScannerCert.the_tables RBUF fuel trans sc bol (fb_of_stream BUF) (text, chunks2) /\
+  fb_lex ScannerCert.the_tables RBUF fuel trans sc bol (fb_of_stream BUF) (text, chunks1) =
+  fb_lex ScannerCert.the_tables RBUF fuel trans sc bol (fb_of_string text) strm /\
+  fb_lex ScannerCert.the_tables RBUF fuel trans sc bol (fb_of_stream BUF) (text, chunks1) = ref_lex ScannerCert.the_tables fuel trans sc bol text.
+Proof. exact FlexBufFacts.C20_inputs_agree. Qed.
+Print Assumptions C20_inputs_agree.
+
+(* the abstract model of Chunked.v is what the buffered matcher computes *)
+Theorem C20_chunked_is_buffered : forall T rbs sc bol chunks lens, (1 <= rbs)%nat -> concat chunks <> [] ->
+  exists st' strm', fb_match T rbs sc bol (fb_of_stream 1) (concat chunks, lens) = (FbAct (match_chunked T sc bol chunks), st', strm').
+Proof. exact chunked_is_buffered. Qed.
